@@ -117,7 +117,11 @@ def _amounts(chk, ctx) -> None:
                   ([T.mk_not(cs)], sp(f'min(self.get_effective_stack(A) + self.bets[A], {base} + max(self.bets))'))],
                  'minimum raise-to = the larger of the street minimum and the largest raise so far, on top of the current bet '
                  '(a completion of the bring-in is to the bet size itself), or all-in for less')
-    _cmp_returns(chk, ctx, 'C03.S4', 'pot_completion_betting_or_raising_to_amount',
+    _pot_sized(chk, ctx)
+
+
+def _pot_sized(chk, ctx, rule='C03.S4') -> None:
+    _cmp_returns(chk, ctx, rule, 'pot_completion_betting_or_raising_to_amount',
                  [([], sp('min(self.stacks[A] + self.bets[A], max(self.min_completion_betting_or_raising_to_amount, '
                           '2 * max(self.bets) - self.bets[A] + self.total_pot_amount))'))],
                  'pot-sized raise-to = call first, then raise by the pot: 2*max bet - own bet + total pot (at least the minimum, at most all-in)')
